@@ -20,6 +20,7 @@ import DropletsVerif.Lemmas.BallConn
 import DropletsVerif.Generated.Spherical
 import Mathlib.Tactic
 import Mathlib.Algebra.BigOperators.Intervals
+import DropletsVerif.Lemmas.Lattice
 
 namespace DV.C01
 open Finset BigOperators
@@ -248,24 +249,6 @@ theorem lab_mem_init (shape : ℕ → ℕ) (lab0 : ℕ → ℕ) (coord : ℕ →
       · rw [step_noop shape lab0 st e hm]; exact hinv)
     edges (initSt coord lab0 cells) [] (fun c => ⟨c, rfl⟩)
   simpa [mergeLoop] using this
-
-theorem foldl_max_ge (l : List ℕ) (a : ℕ) : a ≤ l.foldl max a ∧ ∀ x ∈ l, x ≤ l.foldl max a := by
-  induction l generalizing a with
-  | nil => simp
-  | cons y l ih =>
-    obtain ⟨h1, h2⟩ := ih (max a y)
-    simp only [List.foldl_cons]
-    refine ⟨le_trans (le_max_left a y) h1, ?_⟩
-    intro x hx
-    rcases List.mem_cons.mp hx with rfl | hx
-    · exact le_trans (le_max_right a x) h1
-    · exact h2 x hx
-
-theorem getD_le_foldl_max (l : List ℕ) (c : ℕ) : l.getD c 0 ≤ l.foldl max 0 := by
-  by_cases hc : c < l.length
-  · rw [List.getD_eq_getElem?_getD, List.getElem?_eq_getElem hc]
-    exact (foldl_max_ge l 0).2 _ (List.getElem_mem hc)
-  · rw [List.getD_eq_getElem?_getD, List.getElem?_eq_none (by omega)]; simp
 
 theorem filter_eq_singleton {p : ℕ → Bool} {a : ℕ} : ∀ (l : List ℕ), l.Nodup → a ∈ l → (∀ x ∈ l, p x = true ↔ x = a) →
     l.filter p = [a]
@@ -1925,16 +1908,6 @@ end DV.C01
 namespace DV.C01
 open Finset BigOperators DV.Merge DV.MergeInv DV.Label DV.LabelInv DV.GridGeom DV.Render DV.BallConn DV.WrapDiff DV.C02 DV.Cyl Relation
 
-theorem labelExec_length (shape : List ℕ) (mask : ℕ → Bool) : (labelExec shape mask).length = numCells shape := by
-  unfold labelExec; simp
-
-theorem foldl_max_le (l : List ℕ) (a b : ℕ) (ha : a ≤ b) (h : ∀ x ∈ l, x ≤ b) : l.foldl max a ≤ b := by
-  induction l generalizing a with
-  | nil => simpa
-  | cons x xs ih =>
-    simp only [List.foldl_cons]
-    exact ih _ (max_le ha (h x (by simp))) (fun y hy => h y (by simp [hy]))
-
 /-- a non-empty image that is connected through in-box face pairs gets exactly one label, 1 -/
 theorem clustersOf_connected (shape : List ℕ) (mask : ℕ → Bool)
     (hmask : ∀ c, mask c = true → c < numCells shape)
@@ -2158,17 +2131,6 @@ theorem maskConn_gridConn (shape : List ℕ) (periodic : List Bool) (mask : ℕ 
   rcases hxy with rfl | ⟨⟨ax, l, h⟩, he, rfl, rfl⟩
   · exact Or.inl rfl
   · exact Or.inr ⟨ax, Or.inl ((inboxEdges_iff shape hpos ax _ _).mp he)⟩
-
-theorem foldl_max_mem (l : List ℕ) (a : ℕ) : l.foldl max a = a ∨ l.foldl max a ∈ l := by
-  induction l generalizing a with
-  | nil => left; rfl
-  | cons x xs ih =>
-    simp only [List.foldl_cons]
-    rcases ih (max a x) with h | h
-    · rcases le_total a x with hax | hax
-      · right; rw [h, max_eq_right hax]; simp
-      · left; rw [h, max_eq_left hax]
-    · right; exact List.mem_cons_of_mem _ h
 
 /-- **The clusters of a labelled image are its label classes**: every cluster is the set of all cells carrying the
 label of some image cell, and every image cell's label class is a cluster. -/
@@ -3036,4 +2998,353 @@ one candidate at 3/14 ≈ 0.21 cells (within half a cell of 0.2) with the weight
 example : cylMaskP 1 0 1 4 8 (1/5) (11/5) 15 = true := by decide +kernel
 example : Cyl.candidates 4 8 true (cylMaskP 1 0 1 4 8 (1/5) (11/5)) = some [(3/14, 13)] ∧
     weightP 1 0 1 4 8 (1/5) (11/5) = 13 := by decide +kernel
+end DV.C01
+
+/-! ### the last step: the overlap filter has nothing to remove (packing bound + periodic triangle inequality) -/
+
+
+
+namespace DV.C01
+open DV
+
+/-- equal-volume radius in 3-D is monotone: a volume below that of the sphere of radius `ρ` gives a radius ≤ ρ -/
+theorem radius_from_volume_le_three (V ρ : ℝ) (hV : 0 ≤ V) (hρ : 0 ≤ ρ) (h : V ≤ ρ ^ 3 * (Real.pi * 4 / 3)) :
+    ∃ r, Gen.radius_from_volume V 3 = .ok r ∧ 0 ≤ r ∧ r ≤ ρ := by
+  refine ⟨(3 * V / (4 * Real.pi)) ^ ((1 : ℝ) / 3), ?_, ?_, ?_⟩
+  · simp [Gen.radius_from_volume]
+  · apply Real.rpow_nonneg
+    have := Real.pi_pos
+    positivity
+  · have hpi := Real.pi_pos
+    have h1 : 3 * V / (4 * Real.pi) ≤ ρ ^ 3 := by
+      rw [div_le_iff₀ (by positivity)]
+      nlinarith
+    have h0 : 0 ≤ 3 * V / (4 * Real.pi) := by positivity
+    calc (3 * V / (4 * Real.pi)) ^ ((1 : ℝ) / 3) ≤ (ρ ^ 3) ^ ((1 : ℝ) / 3) := Real.rpow_le_rpow h0 h1 (by norm_num)
+      _ = ρ := by
+        rw [one_div]
+        exact_mod_cast Real.pow_rpow_inv_natCast hρ (by norm_num : (3 : ℕ) ≠ 0)
+
+theorem radius_from_volume_le_two (V ρ : ℝ) (hV : 0 ≤ V) (hρ : 0 ≤ ρ) (h : V ≤ ρ ^ 2 * Real.pi) :
+    ∃ r, Gen.radius_from_volume V 2 = .ok r ∧ 0 ≤ r ∧ r ≤ ρ := by
+  refine ⟨Real.sqrt (V / Real.pi), ?_, Real.sqrt_nonneg _, ?_⟩
+  · simp [Gen.radius_from_volume]
+  · have hpi := Real.pi_pos
+    have h1 : V / Real.pi ≤ ρ ^ 2 := by
+      rw [div_le_iff₀ hpi]; exact h
+    calc Real.sqrt (V / Real.pi) ≤ Real.sqrt (ρ ^ 2) := Real.sqrt_le_sqrt h1
+      _ = ρ := Real.sqrt_sq hρ
+
+theorem radius_from_volume_le_one (V ρ : ℝ) (hV : 0 ≤ V) (h : V ≤ 2 * ρ) :
+    ∃ r, Gen.radius_from_volume V 1 = .ok r ∧ 0 ≤ r ∧ r ≤ ρ := by
+  refine ⟨V / 2, ?_, by positivity, by linarith⟩
+  simp [Gen.radius_from_volume]
+
+end DV.C01
+
+namespace DV.C01
+open Finset BigOperators DV.Merge DV.MergeInv DV.Label DV.LabelInv DV.GridGeom DV.Render DV.BallConn DV.WrapDiff DV.C02 DV.Lattice WithLp
+
+variable (axes : List Axis) (ctr : List ℚ)
+
+/-- lattice index of a cell, unwrapped around the droplet -/
+def latticeIdx (c a : ℕ) : ℤ := (coordOf (shapeOf axes) c a : ℤ) - wrapCount axes ctr c a * ((axes.getD a default).n : ℤ)
+
+theorem coordOf_lt_axis (h : GridWF axes ctr) (c : ℕ) {a : ℕ} (ha : a < axes.length) :
+    coordOf (shapeOf axes) c a < (axes.getD a default).n := by
+  have := coordOf_lt (shapeOf axes) (shape_pos axes ctr h) c a (by unfold shapeOf; simpa using ha)
+  rwa [shape_getD axes ha] at this
+
+theorem latticeIdx_inj (h : GridWF axes ctr) {c c' : ℕ} (hc : c < numCells (shapeOf axes)) (hc' : c' < numCells (shapeOf axes))
+    (heq : ∀ a, a < axes.length → latticeIdx axes ctr c a = latticeIdx axes ctr c' a) : c = c' := by
+  apply unflat_inj (shapeOf axes) (shape_pos axes ctr h) hc hc'
+  apply List.ext_getElem
+  · rw [unflat_length axes ctr h, unflat_length axes ctr h]
+  · intro a h1 h2
+    have ha : a < axes.length := by rw [unflat_length axes ctr h] at h1; exact h1
+    have e := heq a ha
+    unfold latticeIdx at e
+    have l1 := coordOf_lt_axis axes ctr h c ha
+    have l2 := coordOf_lt_axis axes ctr h c' ha
+    set N := (axes.getD a default).n with hN
+    have hNpos : 0 < N := (axis_wf axes ctr h ha).n_pos
+    have hmod : ((coordOf (shapeOf axes) c a : ℤ)) % (N : ℤ) = ((coordOf (shapeOf axes) c' a : ℤ)) % (N : ℤ) := by
+      have : (coordOf (shapeOf axes) c a : ℤ) = (coordOf (shapeOf axes) c' a : ℤ)
+          + (wrapCount axes ctr c a - wrapCount axes ctr c' a) * (N : ℤ) := by linarith
+      rw [this, Int.add_mul_emod_self_right]
+    rw [Int.emod_eq_of_lt (by positivity) (by exact_mod_cast l1), Int.emod_eq_of_lt (by positivity) (by exact_mod_cast l2)] at hmod
+    have hco : coordOf (shapeOf axes) c a = coordOf (shapeOf axes) c' a := by exact_mod_cast hmod
+    unfold coordOf at hco
+    rw [List.getD_eq_getElem?_getD, List.getD_eq_getElem?_getD, List.getElem?_eq_getElem h1, List.getElem?_eq_getElem h2] at hco
+    simpa using hco
+
+/-- **The cells covered by a droplet, unwrapped around it, are distinct lattice points within `R` of its centre.** -/
+theorem covered_as_lattice (h : GridWF axes ctr) (R : ℚ) (hR : 0 ≤ R) (d : ℕ) (hd : axes.length = d) :
+    ∃ T : Finset (Fin d → ℤ),
+      T.card = ((Finset.range (numCells (shapeOf axes))).filter fun c => ballMask axes ctr R c = true).card ∧
+      ∀ n ∈ T, ‖(toLp 2 (centre (fun a : Fin d => (((axes.getD a default).lo : ℚ) : ℝ)) (fun a : Fin d => (((axes.getD a default).dx : ℚ) : ℝ)) n)
+          : EuclideanSpace ℝ (Fin d)) - toLp 2 (fun a : Fin d => ((ctr.getD a 0 : ℚ) : ℝ))‖ < (R : ℝ) := by
+  set S := (Finset.range (numCells (shapeOf axes))).filter fun c => ballMask axes ctr R c = true with hS
+  refine ⟨S.image fun c => fun a : Fin d => latticeIdx axes ctr c a, ?_, ?_⟩
+  · apply Finset.card_image_of_injOn
+    intro c hc c' hc' heq
+    have m1 := (ballMask_iff axes ctr R c).mp (Finset.mem_filter.mp hc).2
+    have m2 := (ballMask_iff axes ctr R c').mp (Finset.mem_filter.mp hc').2
+    apply latticeIdx_inj axes ctr h m1.1 m2.1
+    intro a ha
+    have := congrFun heq ⟨a, by omega⟩
+    simpa using this
+  · intro n hn
+    obtain ⟨c, hc, rfl⟩ := Finset.mem_image.mp hn
+    have m := (ballMask_iff axes ctr R c).mp (Finset.mem_filter.mp hc).2
+    have hD := m.2
+    rw [D_eq_sum axes h c] at hD
+    rw [EuclideanSpace.norm_eq]
+    have hRr : (0 : ℝ) ≤ R := by exact_mod_cast hR
+    rw [← Real.sqrt_sq hRr]
+    apply Real.sqrt_lt_sqrt (Finset.sum_nonneg fun a _ => sq_nonneg _)
+    have hterm : ∀ a : Fin d, ‖(toLp 2 (centre (fun a : Fin d => (((axes.getD a default).lo : ℚ) : ℝ)) (fun a : Fin d => (((axes.getD a default).dx : ℚ) : ℝ))
+          (fun a : Fin d => latticeIdx axes ctr c a)) : EuclideanSpace ℝ (Fin d)) a - (toLp 2 (fun a : Fin d => ((ctr.getD a 0 : ℚ) : ℝ)) : EuclideanSpace ℝ (Fin d)) a‖ ^ 2
+        = (((U axes ctr c a) ^ 2 : ℚ) : ℝ) := by
+      intro a
+      rw [Real.norm_eq_abs, sq_abs]
+      simp only [centre, latticeIdx]
+      rw [U_eq_unwrapped]
+      unfold Axis.centre Axis.length
+      push_cast
+      ring
+    simp only [PiLp.sub_apply]
+    rw [Finset.sum_congr rfl fun a _ => hterm a]
+    rw [Fin.sum_univ_eq_sum_range (fun a => (((U axes ctr c a) ^ 2 : ℚ) : ℝ)) d, ← hd]
+    have : (∑ a ∈ Finset.range axes.length, (((U axes ctr c a) ^ 2 : ℚ) : ℝ)) = ((∑ a ∈ Finset.range axes.length, U axes ctr c a ^ 2 : ℚ) : ℝ) := by
+      push_cast; rfl
+    rw [this]
+    have : ((R * R : ℚ) : ℝ) = (R : ℝ) ^ 2 := by push_cast; ring
+    rw [← this]
+    exact_mod_cast hD
+
+
+/-- **Located spheres do not overlap.**  Two droplets whose centres are at least `R₁ + R₂ + 4ρ` apart (periodic metric; `ρ` ≥ half
+the cell diagonal), located at positions within half a cell per axis of their centres (modulo whole periods on periodic axes)
+with radii at most `Rᵢ + ρ`: the located spheres do not overlap under the periodic metric. -/
+theorem located_spheres_disjoint {p q : List ℚ} (hp : GridWF axes p) (R1 R2 ρ : ℚ) (h1 : 0 ≤ R1) (h2 : 0 ≤ R2) (hρ : 0 ≤ ρ)
+    (hdiag : ∑ a ∈ Finset.range axes.length, ((axes.getD a default).dx / 2) ^ 2 ≤ ρ ^ 2)
+    (hsep : (R1 + R2 + 4 * ρ) ^ 2 ≤ cdist2 axes p q)
+    (P Q : List ℚ)
+    (hP : ∀ a, a < axes.length → ∃ m : ℤ, ((axes.getD a default).periodic = false → m = 0) ∧
+      |P.getD a 0 - (m : ℚ) * (axes.getD a default).length - p.getD a 0| < (axes.getD a default).dx / 2)
+    (hQ : ∀ a, a < axes.length → ∃ m : ℤ, ((axes.getD a default).periodic = false → m = 0) ∧
+      |Q.getD a 0 - (m : ℚ) * (axes.getD a default).length - q.getD a 0| < (axes.getD a default).dx / 2)
+    (r1 r2 : ℝ) (hr1 : 0 ≤ r1) (hr2 : 0 ≤ r2) (hr1' : r1 ≤ (R1 : ℝ) + ρ) (hr2' : r2 ≤ (R2 : ℝ) + ρ) :
+    (r1 + r2) ^ 2 ≤ ((cdist2 axes P Q : ℚ) : ℝ) := by
+  by_contra hcon
+  push Not at hcon
+  set T : ℚ := R1 + R2 + 2 * ρ with hT
+  have hT0 : 0 ≤ T := by positivity
+  have hlt : cdist2 axes P Q < T ^ 2 := by
+    have : ((cdist2 axes P Q : ℚ) : ℝ) < ((T ^ 2 : ℚ) : ℝ) := by
+      refine lt_of_lt_of_le hcon ?_
+      push_cast
+      have : r1 + r2 ≤ (T : ℝ) := by rw [hT]; push_cast; linarith
+      exact pow_le_pow_left₀ (by linarith) this 2
+    exact_mod_cast this
+  -- the position errors
+  choose! m1 hm1 using hP
+  choose! m2 hm2 using hQ
+  set e1 : ℕ → ℚ := fun a => P.getD a 0 - (m1 a : ℚ) * (axes.getD a default).length - p.getD a 0 with he1
+  set e2 : ℕ → ℚ := fun a => Q.getD a 0 - (m2 a : ℚ) * (axes.getD a default).length - q.getD a 0 with he2
+  have hax : ∀ a ∈ Finset.range axes.length, cdiff axes p q a ^ 2 ≤ (cdiff axes P Q a + (-(e1 a)) + e2 a) ^ 2 := by
+    intro a ha
+    have ha' := Finset.mem_range.mp ha
+    have hL := length_pos _ (axis_wf axes p hp ha')
+    unfold cdiff
+    by_cases hper : (axes.getD a default).periodic = true
+    · rw [if_pos hper, if_pos hper]
+      obtain ⟨k, hk⟩ := wrapDiff_congr (axes.getD a default).length (P.getD a 0 - Q.getD a 0)
+      apply wrapDiff_min _ _ _ hL (- k + m1 a - m2 a)
+      rw [hk, he1, he2]; push_cast; ring
+    · rw [if_neg hper, if_neg hper]
+      have hper' : (axes.getD a default).periodic = false := by simpa using hper
+      have z1 := (hm1 a ha').1 hper'
+      have z2 := (hm2 a ha').1 hper'
+      apply le_of_eq
+      rw [he1, he2]; simp only [z1, z2]; push_cast; ring
+  have hle : cdist2 axes p q ≤ ∑ a ∈ Finset.range axes.length, (cdiff axes P Q a + (-(e1 a)) + e2 a) ^ 2 := Finset.sum_le_sum hax
+  have hesum : ∀ (e : ℕ → ℚ), (∀ a, a < axes.length → |e a| < (axes.getD a default).dx / 2) →
+      ∑ a ∈ Finset.range axes.length, e a ^ 2 ≤ ρ ^ 2 := by
+    intro e he
+    refine le_trans (Finset.sum_le_sum fun a ha => ?_) hdiag
+    have := he a (Finset.mem_range.mp ha)
+    have habs := abs_lt.mp this
+    nlinarith
+  have hmk := minkowski3 (Finset.range axes.length) (fun a => cdiff axes P Q a) (fun a => -(e1 a)) e2 T ρ ρ hT0 hρ hρ hlt
+    (by
+      have : ∑ a ∈ Finset.range axes.length, (-(e1 a)) ^ 2 = ∑ a ∈ Finset.range axes.length, e1 a ^ 2 :=
+        Finset.sum_congr rfl fun a _ => by ring
+      rw [this]; exact hesum e1 (fun a ha => (hm1 a ha).2))
+    (hesum e2 (fun a ha => (hm2 a ha).2))
+  have : (R1 + R2 + 4 * ρ) ^ 2 < (T + ρ + ρ) ^ 2 := lt_of_le_of_lt (le_trans hsep hle) hmk
+  rw [hT] at this
+  nlinarith
+
+
+theorem halfDiag_le (d : ℕ) (hd : axes.length = d) (ρ : ℚ) (hρ : 0 ≤ ρ)
+    (hdiag : ∑ a ∈ Finset.range axes.length, ((axes.getD a default).dx / 2) ^ 2 ≤ ρ ^ 2) :
+    halfDiag (fun a : Fin d => (((axes.getD a default).dx : ℚ) : ℝ)) ≤ (ρ : ℝ) := by
+  unfold halfDiag
+  rw [EuclideanSpace.norm_eq]
+  have hρr : (0 : ℝ) ≤ ρ := by exact_mod_cast hρ
+  rw [← Real.sqrt_sq hρr]
+  apply Real.sqrt_le_sqrt
+  have : ∑ a : Fin d, ‖(toLp 2 (fun a : Fin d => (((axes.getD a default).dx : ℚ) : ℝ) / 2) : EuclideanSpace ℝ (Fin d)) a‖ ^ 2
+      = ((∑ a ∈ Finset.range axes.length, ((axes.getD a default).dx / 2) ^ 2 : ℚ) : ℝ) := by
+    rw [hd, ← Fin.sum_univ_eq_sum_range (fun a => ((axes.getD a default).dx / 2) ^ 2) d]
+    push_cast
+    apply Finset.sum_congr rfl
+    intro a _
+    rw [Real.norm_eq_abs, sq_abs]
+  rw [this]
+  have : ((ρ ^ 2 : ℚ) : ℝ) = (ρ : ℝ) ^ 2 := by push_cast; ring
+  rw [← this]
+  exact_mod_cast hdiag
+
+/-- **The located (equal-volume) radius of a droplet exceeds its radius by at most half a cell diagonal**, in 1, 2 and 3
+dimensions: the covered cells are disjoint boxes inside the ball of radius `R + ρ` (packing bound, Lebesgue measure), and
+`radius_from_volume` (regenerated from the code) is monotone. -/
+theorem located_radius_le (h : GridWF axes ctr) (R : ℚ) (hR : 0 ≤ R) (ρ : ℚ) (hρ : 0 ≤ ρ)
+    (hdiag : ∑ a ∈ Finset.range axes.length, ((axes.getD a default).dx / 2) ^ 2 ≤ ρ ^ 2)
+    (hd : axes.length = 1 ∨ axes.length = 2 ∨ axes.length = 3) :
+    ∃ r : ℝ, Gen.radius_from_volume
+        ((((Finset.range (numCells (shapeOf axes))).filter fun c => ballMask axes ctr R c = true).card : ℝ)
+          * ∏ a ∈ Finset.range axes.length, (((axes.getD a default).dx : ℚ) : ℝ)) axes.length = .ok r ∧
+      0 ≤ r ∧ r ≤ (R : ℝ) + ρ := by
+  have hRr : (0 : ℝ) ≤ R := by exact_mod_cast hR
+  have hρr : (0 : ℝ) ≤ ρ := by exact_mod_cast hρ
+  have hh : ∀ (d : ℕ) (hdd : axes.length = d) (a : Fin d), 0 < (((axes.getD a default).dx : ℚ) : ℝ) := by
+    intro d hdd a
+    have := (axis_wf axes ctr h (k := a) (by omega)).dx_pos
+    exact_mod_cast this
+  have hprod : ∀ (d : ℕ) (hdd : axes.length = d), ∏ a : Fin d, (((axes.getD a default).dx : ℚ) : ℝ)
+      = ∏ a ∈ Finset.range axes.length, (((axes.getD a default).dx : ℚ) : ℝ) := by
+    intro d hdd
+    rw [hdd, ← Fin.prod_univ_eq_prod_range (fun a => (((axes.getD a default).dx : ℚ) : ℝ)) d]
+  have hV0 : ∀ N : ℕ, 0 ≤ (N : ℝ) * ∏ a ∈ Finset.range axes.length, (((axes.getD a default).dx : ℚ) : ℝ) := by
+    intro N
+    apply mul_nonneg (Nat.cast_nonneg _)
+    apply Finset.prod_nonneg
+    intro a ha
+    have := (axis_wf axes ctr h (k := a) (Finset.mem_range.mp ha)).dx_pos
+    exact_mod_cast this.le
+  have hV := hV0 ((Finset.range (numCells (shapeOf axes))).filter fun c => ballMask axes ctr R c = true).card
+  rcases hd with hd | hd | hd
+  · obtain ⟨T, hTc, hTS⟩ := covered_as_lattice axes ctr h R hR 1 hd
+    have hb := card_vol_le_one T _ _ _ (hh 1 hd) R hRr hTS
+    have hhd := halfDiag_le axes 1 hd ρ hρ hdiag
+    rw [hTc, hprod 1 hd] at hb
+    rw [hd]
+    rw [hd] at hb
+    exact radius_from_volume_le_one _ _ (by rwa [hd] at hV) (by linarith)
+  · obtain ⟨T, hTc, hTS⟩ := covered_as_lattice axes ctr h R hR 2 hd
+    have hb := card_vol_le_two T _ _ _ (hh 2 hd) R hRr hTS
+    have hhd := halfDiag_le axes 2 hd ρ hρ hdiag
+    rw [hTc, hprod 2 hd] at hb
+    rw [hd]
+    rw [hd] at hb
+    refine radius_from_volume_le_two _ _ (by rwa [hd] at hV) (by linarith) (le_trans hb ?_)
+    have : (R : ℝ) + halfDiag (fun a : Fin 2 => (((axes.getD a default).dx : ℚ) : ℝ)) ≤ R + ρ := by linarith
+    have h0 : 0 ≤ (R : ℝ) + halfDiag (fun a : Fin 2 => (((axes.getD a default).dx : ℚ) : ℝ)) := add_nonneg hRr (halfDiag_nonneg _)
+    have := pow_le_pow_left₀ h0 this 2
+    nlinarith [Real.pi_pos]
+  · obtain ⟨T, hTc, hTS⟩ := covered_as_lattice axes ctr h R hR 3 hd
+    have hb := card_vol_le_three T _ _ _ (hh 3 hd) R hRr hTS
+    have hhd := halfDiag_le axes 3 hd ρ hρ hdiag
+    rw [hTc, hprod 3 hd] at hb
+    rw [hd]
+    rw [hd] at hb
+    refine radius_from_volume_le_three _ _ (by rwa [hd] at hV) (by linarith) (le_trans hb ?_)
+    have : (R : ℝ) + halfDiag (fun a : Fin 3 => (((axes.getD a default).dx : ℚ) : ℝ)) ≤ R + ρ := by linarith
+    have h0 : 0 ≤ (R : ℝ) + halfDiag (fun a : Fin 3 => (((axes.getD a default).dx : ℚ) : ℝ)) := add_nonneg hRr (halfDiag_nonneg _)
+    have := pow_le_pow_left₀ h0 this 3
+    nlinarith [Real.pi_pos]
+
+
+theorem range_map_getD (n : ℕ) (f : ℕ → ℚ) {a : ℕ} (ha : a < n) : ((List.range n).map f).getD a 0 = f a := by
+  rw [List.getD_eq_getElem?_getD, List.getElem?_map, List.getElem?_range ha]; rfl
+
+/-- **C01, last step: the overlap filter has nothing to remove.**  Any number of droplets on a well-formed Cartesian grid in
+1–3 dimensions (anisotropic spacing, any periodicity), each resolved, with centres pairwise at least `Rᵢ + Rⱼ + 4ρ` apart
+under the grid's periodic metric (`ρ` ≥ half the cell diagonal): the droplets LOCATED by the model pipeline — position
+from the merge loop, radius = `radius_from_volume` (regenerated from the code) of the cluster's volume — are spheres that do
+not overlap under the periodic metric: `(rᵢ + rⱼ)² ≤ dist²(posᵢ, posⱼ)`, i.e. every entry of the surface-distance matrix
+is ≥ 0, so `remove_overlapping` returns the emulsion unchanged (`DV.C10.loop_noop`) and exactly one droplet per original
+is returned. -/
+theorem C01_located_spheres_disjoint (balls : List (List ℚ × ℚ)) (hwf : ∀ b ∈ balls, GridWF axes b.1)
+    (hd3 : axes.length = 1 ∨ axes.length = 2 ∨ axes.length = 3) (ρ : ℚ) (hρ : 0 ≤ ρ)
+    (hdiag : ∑ a ∈ Finset.range axes.length, ((axes.getD a default).dx / 2) ^ 2 ≤ ρ ^ 2)
+    (hdist : ∀ b1 ∈ balls, ∀ b2 ∈ balls, b1 ≠ b2 → (b1.2 + b2.2 + 4 * ρ) ^ 2 ≤ cdist2 axes b1.1 b2.1)
+    (hres : ∀ b ∈ balls, FullyResolved axes b.1 b.2)
+    (b1 b2 : List ℚ × ℚ) (hb1 : b1 ∈ balls) (hb2 : b2 ∈ balls) (hne : b1 ≠ b2)
+    (c1 c2 : ℕ) (hc1 : ballMask axes b1.1 b1.2 c1 = true) (hc2 : ballMask axes b2.1 b2.2 c2 = true) :
+    let mask := emulsionMask axes balls
+    let L := labelFn (shapeOf axes) mask
+    let cells := List.range (numCells (shapeOf axes))
+    let st := mergeLoop (fun a => (shapeOf axes).getD a 1) L (initSt (coordOf (shapeOf axes)) L cells)
+      (edgesOf (shapeOf axes) (perOf axes))
+    let pos := fun c0 : ℕ => (List.range axes.length).map fun a =>
+      (axes.getD a default).lo + (axes.getD a default).dx * st.pos (st.lab c0) a
+    let cellVol : ℝ := ∏ a ∈ Finset.range axes.length, (((axes.getD a default).dx : ℚ) : ℝ)
+    ∃ r1 r2 : ℝ, Gen.radius_from_volume (((st.vol (st.lab c1) : ℚ) : ℝ) * cellVol) axes.length = .ok r1 ∧
+      Gen.radius_from_volume (((st.vol (st.lab c2) : ℚ) : ℝ) * cellVol) axes.length = .ok r2 ∧
+      0 ≤ r1 ∧ 0 ≤ r2 ∧ (r1 + r2) ^ 2 ≤ ((cdist2 axes (pos c1) (pos c2) : ℚ) : ℝ) := by
+  intro mask L cells st pos cellVol
+  have hd : 0 < axes.length := by omega
+  have hR : ∀ b ∈ balls, 0 ≤ b.2 := fun b hb => (hres b hb 0 hd).nonneg
+  -- every cell size is at most 2ρ
+  have hh : ∀ a ∈ axes, a.dx ≤ 2 * ρ := by
+    intro a ha
+    obtain ⟨k, hk, rfl⟩ := List.getElem_of_mem ha
+    have hdx := (hwf b1 hb1).wf _ (List.getElem_mem hk)
+    have hterm : (axes[k].dx / 2) ^ 2 ≤ ρ ^ 2 := by
+      refine le_trans ?_ hdiag
+      have : (axes[k].dx / 2) ^ 2 = ((axes.getD k default).dx / 2) ^ 2 := by
+        rw [List.getD_eq_getElem?_getD, List.getElem?_eq_getElem hk]; rfl
+      rw [this]
+      exact Finset.single_le_sum (f := fun a => ((axes.getD a default).dx / 2) ^ 2) (fun a _ => sq_nonneg _) (Finset.mem_range.mpr hk)
+    have := abs_le_of_sq_le_sq' hterm hρ
+    linarith [this.2, hdx.dx_pos]
+  have hdist' : ∀ b1 ∈ balls, ∀ b2 ∈ balls, b1 ≠ b2 → (b1.2 + b2.2 + 2 * ρ) ^ 2 ≤ cdist2 axes b1.1 b2.1 := by
+    intro x hx y hy hxy
+    refine le_trans ?_ (hdist x hx y hy hxy)
+    have := hR x hx; have := hR y hy
+    apply pow_le_pow_left₀ (by positivity)
+    linarith
+  have hsep := separated_of_distances axes balls hwf hR (2 * ρ) hh (by positivity) hdist'
+  obtain ⟨_, hv1, m1, hm10, hm1⟩ := emulsion_droplet_located axes balls hwf hsep hd b1 hb1 (hres b1 hb1) c1 hc1
+  obtain ⟨_, hv2, m2, hm20, hm2⟩ := emulsion_droplet_located axes balls hwf hsep hd b2 hb2 (hres b2 hb2) c2 hc2
+  obtain ⟨r1, hr1, hr10, hr1le⟩ := located_radius_le axes b1.1 (hwf b1 hb1) b1.2 (hR b1 hb1) ρ hρ hdiag hd3
+  obtain ⟨r2, hr2, hr20, hr2le⟩ := located_radius_le axes b2.1 (hwf b2 hb2) b2.2 (hR b2 hb2) ρ hρ hdiag hd3
+  refine ⟨r1, r2, ?_, ?_, hr10, hr20, ?_⟩
+  · show Gen.radius_from_volume (((st.vol (st.lab c1) : ℚ) : ℝ) * cellVol) axes.length = .ok r1
+    rw [hv1]; push_cast; exact hr1
+  · show Gen.radius_from_volume (((st.vol (st.lab c2) : ℚ) : ℝ) * cellVol) axes.length = .ok r2
+    rw [hv2]; push_cast; exact hr2
+  · apply located_spheres_disjoint axes (hwf b1 hb1) b1.2 b2.2 ρ (hR b1 hb1) (hR b2 hb2) hρ hdiag (hdist b1 hb1 b2 hb2 hne)
+      (pos c1) (pos c2) _ _ r1 r2 hr10 hr20 hr1le hr2le
+    · intro a ha
+      refine ⟨m1 a, hm10 a ha, ?_⟩
+      rw [range_map_getD axes.length _ ha]
+      exact hm1 a ha
+    · intro a ha
+      refine ⟨m2 a, hm20 a ha, ?_⟩
+      rw [range_map_getD axes.length _ ha]
+      exact hm2 a ha
+
+end DV.C01
+
+namespace DV.C01
+open DV.Render DV.BallConn
+/-- non-vacuity of the separation hypotheses of `C01_located_spheres_disjoint`: the two droplets of radius 3/2 at (3,3)
+and (9,9) on the 12×12 periodic unit grid, ρ = 3/4 ≥ √2/2 -/
+example : ∑ a ∈ Finset.range axes12.length, ((axes12.getD a default).dx / 2) ^ 2 ≤ ((3 : ℚ) / 4) ^ 2 := by decide +kernel
+example : ((3/2 : ℚ) + 3/2 + 4 * (3/4)) ^ 2 ≤ cdist2 axes12 [3, 3] [9, 9] := by decide +kernel
 end DV.C01
